@@ -24,6 +24,7 @@ package c15
 import (
 	"fmt"
 	"net"
+	"os"
 	"runtime"
 	"sort"
 	"strings"
@@ -151,7 +152,7 @@ type runC struct {
 	answered    map[uint32]bool
 	answeredOK  map[uint32]bool
 	agentClosed map[uint32]bool
-	seenAt      map[string]int64 // client address -> tick at which its socket was seen registered
+	seenAt      map[uint32]int64 // socket id -> tick at which the agent saw it registered
 	fwdOpen     map[uint32]bool
 	fwdDialled  map[uint32]bool
 
@@ -184,6 +185,8 @@ type tblEntry struct {
 	remote string
 	lport  string
 }
+
+func (e tblEntry) key() string { return e.remote + "->" + e.lport }
 
 func (x *runC) table() []tblEntry {
 	x.f.a.SocksCliMtx.Lock()
@@ -254,11 +257,7 @@ func (x *runC) sweep(ok func(i int) bool) {
 			continue
 		}
 		x.answered[e.id] = true
-		if e.remote != "" {
-			if _, seen := x.seenAt[e.remote]; !seen {
-				x.seenAt[e.remote] = x.tick()
-			}
-		}
+		x.seenAt[e.id] = x.tick()
 		if ok(i) {
 			x.answeredOK[e.id] = true
 			x.call("agent-connect-ok", func() { x.f.dispatch(cbConnect(e.id, true, 0)) })
@@ -315,7 +314,7 @@ func (x *runC) client(ops []OpC) {
 				continue
 			}
 			cc.conn = c.(*net.TCPConn)
-			cc.addr = c.LocalAddr().String()
+			cc.addr = c.LocalAddr().String() + "->" + x.ports[slot]
 			x.mu.Lock()
 			x.conns = append(x.conns, cc)
 			x.mu.Unlock()
@@ -412,12 +411,33 @@ func (x *runC) runSink() {
 	}
 }
 
+// slotPort hands out the ports of the three proxy slots.  A slot stays unbound for long
+// stretches of a case (until some operator adds it), so an ephemeral port would invite
+// another process (another shard of this very check) to bind it meanwhile and our client
+// would then talk to a foreign proxy.  Slots therefore come from below the ephemeral range,
+// each process walking its own stretch of 12000-31999.
+var slotSeq int
+
+func slotPort() string {
+	if slotSeq == 0 {
+		slotSeq = int(uint32(os.Getpid())*2654435761%20000) + 1
+	}
+	slotSeq++
+	p := 12000 + slotSeq%20000
+	l, err := net.Listen("tcp4", fmt.Sprintf("0.0.0.0:%d", p))
+	if err != nil {
+		return ""
+	}
+	l.Close()
+	return fmt.Sprint(p)
+}
+
 // ---------------------------------------------------------------------------- check
 
 func checkC(c CaseC) (v *core.Violation) {
 	defer slowLog("c", c)()
 	x := &runC{f: newFixture(), answered: map[uint32]bool{}, answeredOK: map[uint32]bool{}, agentClosed: map[uint32]bool{},
-		seenAt: map[string]int64{}, fwdOpen: map[uint32]bool{}, fwdDialled: map[uint32]bool{}}
+		seenAt: map[uint32]int64{}, fwdOpen: map[uint32]bool{}, fwdDialled: map[uint32]bool{}}
 	var err error
 	x.sink, err = net.Listen("tcp4", "127.0.0.1:0")
 	if err != nil {
@@ -442,14 +462,11 @@ func checkC(c CaseC) (v *core.Violation) {
 		x.sinkWG.Wait()
 	}()
 
-	seen := map[string]bool{}
-	for len(x.ports) < 3 {
-		p := freePort()
-		if p == "" {
+	for tries := 0; len(x.ports) < 3; tries++ {
+		if tries > 60 {
 			return skip("no-port")
 		}
-		if !seen[p] {
-			seen[p] = true
+		if p := slotPort(); p != "" {
 			x.ports = append(x.ports, p)
 		}
 	}
@@ -506,9 +523,15 @@ func checkC(c CaseC) (v *core.Violation) {
 	}
 	// sockets whose client had already reset the connection can never become connected (finding
 	// of sub-check (b)); take them out so that the relays can come to rest
+	// a 4-tuple can be used again after a reset; only the last connection on a tuple can own a
+	// socket that is registered now
+	lastOn := map[string]*cconn{}
+	for _, cc := range x.conns {
+		lastOn[cc.addr] = cc
+	}
 	closedByClient := map[string]string{}
 	for _, cc := range x.conns {
-		if cc.closeKind != "" {
+		if cc.closeKind != "" && lastOn[cc.addr] == cc {
 			closedByClient[cc.addr] = cc.closeKind
 		}
 	}
@@ -517,7 +540,7 @@ func checkC(c CaseC) (v *core.Violation) {
 	for _, sc := range x.f.a.SocksCli {
 		// Connected is written only by TaskDispatch, i.e. by this goroutine's own calls and by the
 		// agent party that has been joined
-		if sc != nil && !sc.Connected && sc.Conn != nil && closedByClient[sc.Conn.RemoteAddr().String()] != "" {
+		if sc != nil && !sc.Connected && sc.Conn != nil && closedByClient[connKey(sc.Conn)] != "" {
 			stuck = append(stuck, uint32(sc.SocketID))
 		}
 	}
@@ -539,7 +562,7 @@ func checkC(c CaseC) (v *core.Violation) {
 		if ids[e.id] > 1 {
 			return core.V("c|rest|duplicate-socket-id", "socket id %08x occurs twice in the socket table", e.id)
 		}
-		byAddr[e.remote] = e
+		byAddr[e.key()] = e
 	}
 	proxies := x.f.proxyPorts()
 	pset := map[string]int{}
@@ -588,34 +611,44 @@ func checkC(c CaseC) (v *core.Violation) {
 		}
 		return out
 	}
-	for _, cc := range x.conns {
-		e, present := byAddr[cc.addr]
-		mustGo, why := false, ""
-		if present && x.agentClosed[e.id] {
-			mustGo, why = true, "closed-by-agent"
+	slotOf := map[string]int{}
+	for i, p := range x.ports {
+		slotOf[p] = i
+	}
+	for _, e := range tbl {
+		why := ""
+		if x.agentClosed[e.id] {
+			why = "closed-by-agent"
 		}
-		if cc.rstWhileConnected {
-			mustGo, why = true, "reset-by-connected-client"
-		}
-		if t, ok := x.seenAt[cc.addr]; ok && !x.uncertain {
-			for _, ev := range removesOf(cc.slot) {
-				if ev.start > t {
-					mustGo, why = true, "registered-before-"+ev.kind
+		if t, ok := x.seenAt[e.id]; ok && !x.uncertain {
+			if slot, ok := slotOf[e.lport]; ok {
+				for _, ev := range removesOf(slot) {
+					if ev.start > t {
+						why = "registered-before-" + ev.kind
+					}
 				}
 			}
 		}
-		if present && mustGo {
-			return core.V("c|rest|socket-stays|"+why, "socket %08x of client %s (proxy slot %d) is still registered at rest: %s", e.id, cc.addr, cc.slot, why)
+		if cc := lastOn[e.key()]; cc != nil && cc.rstWhileConnected {
+			why = "reset-by-connected-client"
 		}
-		if !present && !mustGo && cc.done && cc.closeKind == "" && !x.uncertain {
+		if why != "" {
+			return core.V("c|rest|socket-stays|"+why, "socket %08x (client %s) is still registered at rest: %s", e.id, e.key(), why)
+		}
+	}
+	for _, cc := range x.conns {
+		if _, present := byAddr[cc.addr]; present || lastOn[cc.addr] != cc {
+			continue
+		}
+		if cc.done && cc.closeKind == "" && !x.uncertain {
 			touched := false
 			for _, ev := range removesOf(cc.slot) {
 				if ev.end > cc.tDial {
 					touched = true
 				}
 			}
-			// failure answers and agent closes are keyed by id; a socket that is gone has no id left to
-			// look up, so "the agent ended it" is recognised by the client having seen the reply / EOF
+			// a socket that is gone has no id left to look up, so "the agent ended it" is recognised by
+			// the client having seen the failure reply or the end of its stream
 			x.pollReply(cc)
 			if !touched && !cc.refused && !x.endedByAgent(cc) {
 				return core.V("c|rest|socket-missing", "client %s (proxy slot %d) completed its CONNECT request, nobody closed it and its proxy was not removed, but no socket is registered for it", cc.addr, cc.slot)
@@ -632,6 +665,16 @@ func checkC(c CaseC) (v *core.Violation) {
 					adds = append(adds, ev)
 				case ev.kind == "clear", ev.kind == "kill" && ev.slot == slot:
 					rems = append(rems, ev)
+				}
+			}
+			// two overlapping adds of one port can both pass the "already exists" test (finding
+			// duplicate-proxy-port); a later kill then removes only one of the two entries
+			overlap := false
+			for i := range adds {
+				for j := range adds {
+					if i != j && adds[i].start < adds[j].end && adds[j].start < adds[i].end {
+						overlap = true
+					}
 				}
 			}
 			mustHave, mustLack := false, len(adds) == 0
@@ -660,7 +703,7 @@ func checkC(c CaseC) (v *core.Violation) {
 			if mustHave && pset[port] == 0 {
 				return core.V("c|rest|proxy-missing", "proxy slot %d (%s) was added after every kill/clear had finished, the proxy table holds %v", slot, port, proxies)
 			}
-			if mustLack && pset[port] != 0 {
+			if mustLack && pset[port] != 0 && !overlap {
 				return core.V("c|rest|proxy-stays", "proxy slot %d (%s) was killed/cleared after every add had finished, the proxy table holds %v", slot, port, proxies)
 			}
 		}
@@ -680,6 +723,14 @@ func (x *runC) endedByAgent(cc *cconn) bool {
 			return !isTimeout(err)
 		}
 	}
+}
+
+func connKey(c net.Conn) string {
+	lp := ""
+	if la, ok := c.LocalAddr().(*net.TCPAddr); ok && la != nil {
+		lp = fmt.Sprint(la.Port)
+	}
+	return c.RemoteAddr().String() + "->" + lp
 }
 
 func runtimeStack(buf []byte) int { return runtime.Stack(buf, true) }
